@@ -1799,6 +1799,7 @@ class Analyzer:
             lo, hi = sgn_rng(w)
         else:
             lo, hi = 0, m
+        self.symdef[T("and", w, k1, k2)] = ("and", a.lin, b.lin, w)
         st.env[i.res] = self.fresh(st, w, T("and", w, k1, k2), lo, hi, tz_of(m), deps=(a.lin, b.lin))
 
     def x_or(self, st, i):
@@ -1848,6 +1849,7 @@ class Analyzer:
             lo, hi = sgn_rng(w)
         else:
             lo, hi = max(alo, blo, 0), m
+        self.symdef[T("or", w, k1, k2)] = ("or", a.lin, b.lin, w)
         st.env[i.res] = self.fresh(st, w, T("or", w, k1, k2), lo, hi, min(a.tz, b.tz), deps=(a.lin, b.lin))
 
     def x_xor(self, st, i):
@@ -1882,6 +1884,7 @@ class Analyzer:
         lo, hi = sgn_rng(w)
         if alo >= 0 and blo >= 0:
             lo, hi = 0, (1 << max(ahi.bit_length(), bhi.bit_length())) - 1
+        self.symdef[T("xor", w, k1, k2)] = ("xor", a.lin, b.lin, w)
         st.env[i.res] = self.fresh(st, w, T("xor", w, k1, k2), lo, hi, deps=(a.lin, b.lin))
 
     # ---- division
@@ -2137,8 +2140,32 @@ class Analyzer:
             else:
                 st.env[i.res] = BoolV(None, a.pred if pos else ("not", a.pred))
             return
+        # sign test of a bitwise combination: (a ^ b) < 0 iff the signs differ, (a & b) < 0 iff both are negative, ...
+        if b.lin.is_const() and ((p in ("slt", "sge") and b.lin.c == 0) or (p in ("sgt", "sle") and b.lin.c == -1)):
+            sp = self.sign_pred(st, a.lin, a.w, 0)
+            if sp is not None:
+                pred = sp if p in ("slt", "sle") else ("not", sp)
+                st.env[i.res] = BoolV(self.eval_pred(st, pred), pred)
+                return
         tv = self.icmp_tv(st, p, a, b)
         st.env[i.res] = BoolV(tv, ("icmp", p, a, b))
+
+    def sign_pred(self, st, lin, w, depth):
+        """predicate 'the w-bit value with this form is negative', decomposed through xor / and / or symbols; None when the form
+        is not such a symbol (the caller then uses the ordinary comparison)"""
+        sg = lin.single()
+        d = None
+        if sg is not None and sg[1] == 1 and lin.cn == 0 and lin.d == 1:
+            d = self.symdef.get(sg[0])
+        if d is None or d[0] not in ("xor", "and", "or") or d[3] != w or depth > 6:
+            return None if depth == 0 else ("lin", lin, -(1 << w), -1)
+        pa = self.sign_pred(st, d[1], w, depth + 1)
+        pb = self.sign_pred(st, d[2], w, depth + 1)
+        if d[0] == "and":
+            return ("and", pa, pb)
+        if d[0] == "or":
+            return ("or", pa, pb)
+        return ("or", ("and", pa, ("not", pb)), ("and", ("not", pa), pb))
 
     def icmp_tv(self, st, p, a, b):
         if p[0] == "u":
